@@ -71,6 +71,18 @@ def cases(tier):
                        'tamper_statement': [{'op': 'promise', 'j': j, 'value': str(p1)}, {'op': 'commitment_shift_h', 'j': j, 'by': p1 - p0}]}
                 cfg = {'scenario': 'batch', 'n': n, 'x': x, 'members': [mem], 'actions': ['VerifyOnly', 'RecoverAndVerify']}
                 out.append({'cfg': cfg, 'kind': 'shifted', 'name': 'promise %d: %d -> %d with commitment %d moved by %d*H (n%d m%d x%d)' % (j, p0, p1, j, p1 - p0, n, m, x)})
+    # promises of DIFFERENT members at the same position do not leak into each other: [Some(p) at j, None at j] in one batch, both orders —
+    # honest (accepted), and a proof made under Some(p) presented under None right behind a member that does promise p (refused)
+    for (n, m, x) in [(8, 1, 1), (8, 2, 2), (4, 4, 1)]:
+        for j in range(m):
+            with_p = {'m': m, 'cap': m, 'values': ['9'] * m, 'promises': [('7' if jj == j else None) for jj in range(m)], 'sym_bits': False, 'label': 'member with promise'}
+            without = {'m': m, 'cap': m, 'values': ['9'] * m, 'promises': [None] * m, 'sym_bits': False, 'label': 'member without promise', 'name_idx': 1}
+            forged = dict(with_p, label='member proved with promise, presented without', name_idx=2, tamper_statement={'op': 'promise', 'j': j, 'value': None})
+            for order in ((with_p, without), (without, with_p)):
+                cfg = {'scenario': 'batch', 'n': n, 'x': x, 'members': [dict(o) for o in order], 'actions': ['VerifyOnly', 'RecoverAndVerify']}
+                out.append({'cfg': cfg, 'kind': 'honest', 'name': 'batch [%s, %s], promise at position %d (n%d m%d x%d)' % (order[0]['label'], order[1]['label'], j, n, m, x)})
+            cfg = {'scenario': 'batch', 'n': n, 'x': x, 'members': [dict(with_p, name_idx=0), forged], 'actions': ['VerifyOnly', 'RecoverAndVerify']}
+            out.append({'cfg': cfg, 'kind': 'substituted', 'name': 'proof made under Some(7) at %d presented under None behind a member promising 7 there (n%d m%d x%d)' % (j, n, m, x)})
     # honest with u64::MAX promise at 64 bits
     cfg = {'scenario': 'batch', 'n': 64, 'x': 1, 'members': [{'m': 1, 'cap': 1, 'values': [str((1 << 64) - 1)], 'promises': [str((1 << 64) - 1)]}], 'actions': ['VerifyOnly']}
     out.append({'cfg': cfg, 'kind': 'honest', 'name': 'value = promise = u64::MAX at 64 bits'})
